@@ -57,6 +57,30 @@ def run(ctx):
     for e in targeted:
         n += 1
         cases.append(case('t%d' % n, 'determ-eval', store, req, e))
+    # `in` over hierarchies with cycles through the entity the search starts from and several parents per entity: which parent the map yields
+    # first must not matter (every small graph shape below, every target)
+    def cyc_store(edges, names):
+        return ['store'] + [['ent', gen.vent('N', x), ['parents'] + [gen.vent('N', y) for (a_, y) in edges if a_ == x], ['attrs'], ['tags']] for x in names]
+    shapes = [[('a', 'b'), ('b', 'a'), ('b', 'c'), ('c', 'd')],                       # back to the start, then onwards
+              [('a', 'b'), ('b', 'a'), ('b', 'c'), ('b', 'e'), ('c', 'd'), ('e', 'd')],
+              [('a', 'a'), ('a', 'b'), ('a', 'c'), ('c', 'd')],                       # self parent beside real parents
+              [('a', 'b'), ('a', 'c'), ('b', 'a'), ('c', 'a'), ('c', 'd'), ('b', 'e'), ('e', 'd')],
+              [('a', 'b'), ('b', 'c'), ('c', 'a'), ('c', 'd'), ('c', 'e'), ('c', 'f'), ('f', 'g')]]
+    for sh in shapes:
+        names = sorted({x for e_ in sh for x in e_})
+        st = cyc_store(sh, names)
+        rq = ['req', gen.vent('N', 'a'), gen.vent('Action', 'view'), gen.vent('N', names[-1]), ['rec']]
+        for tgt in names + ['zz']:
+            n += 1
+            cases.append(case('t%d' % n, 'determ-eval', st, rq, ['in', ['var', 'principal'], lit(gen.vent('N', tgt))]))
+            n += 1
+            cases.append(case('t%d' % n, 'determ-eval', st, rq, ['in', lit(gen.vent('N', 'a')), lit(gen.vset([gen.vent('N', tgt), gen.vent('N', 'nobody')]))]))
+            n += 1
+            cases.append(case('t%d' % n, 'determ-eval', st, rq, ['isIn', ['var', 'principal'], S('N'), lit(gen.vent('N', tgt))]))
+            pol = [['policy', S('p0'), 'permit', ['in', gen.vent('N', tgt)], ['all'], ['all'], ['conds']],
+                   ['policy', S('p1'), 'forbid', ['all'], ['all'], ['isin', S('N'), gen.vent('N', tgt)], ['conds', ['unless', ['in', ['var', 'principal'], lit(gen.vent('N', tgt))]]]]]
+            n += 1
+            cases.append(case('ta%d' % n, 'determ-authz', st, rq, ['policies'] + pol))
     for i in range(250 if quick else 8000):
         cases.append(case('e%d' % i, 'determ-eval', g.store(), g.request(), g.expr(r.choice([2, 3, 4]), r.choice([None, 'bool', 'set', 'rec']))))
     for i in range(150 if quick else 5000):
